@@ -116,19 +116,11 @@ TabInsert(tab, lg, c) ==
 EmptyTab(lg) == [p \in 0..(Pow2(lg) - 1) |-> NoC]
 
 \* coupons of a table / list in storage order (what Container::iter yields)
-RECURSIVE TabSeqFrom(_, _, _)
-TabSeqFrom(tab, p, size) ==
-  IF p = size THEN <<>>
-  ELSE IF tab[p] = NoC THEN TabSeqFrom(tab, p + 1, size)
-  ELSE <<tab[p]>> \o TabSeqFrom(tab, p + 1, size)
-TabSeq(tab, lg) == TabSeqFrom(tab, 0, Pow2(lg))
+TabSeq(tab, lg) == SelectSeq([i \in 1..Pow2(lg) |-> tab[i - 1]], LAMBDA x : x # NoC)
 
-RECURSIVE InsertAll(_, _, _)
-InsertAll(tab, lg, cs) ==
-  IF cs = <<>> THEN tab ELSE InsertAll(TabInsert(tab, lg, Head(cs)), lg, Tail(cs))
+InsertAll(tab, lg, cs) == FoldLeft(LAMBDA acc, c : TabInsert(acc, lg, c), tab, cs)
 
-RECURSIVE UpdateAll(_, _)
-UpdateAll(st, cs) == IF cs = <<>> THEN st ELSE UpdateAll(ArrUpdate(st, Head(cs)), Tail(cs))
+UpdateAll(st, cs) == FoldLeft(LAMBDA acc, c : ArrUpdate(acc, c), st, cs)
 
 RangeOf(f) == {f[x] : x \in DOMAIN f}
 
